@@ -104,4 +104,58 @@ def signSshData (agent : Bytes → Conn) (k : Key) (data : Bytes) (algorithm : O
       if ptype ≠ PV.Generated.C45.signResponseType then .error .cannotSign
       else .ok (rd.getString).1)      -- `result.get_binary()`
 
+/-! ## several requests on one agent connection
+
+The connection object persists between requests: whatever a request leaves unread in the stream is what the next
+request starts reading.  `readAllSt` is `_read_all` with the connection threaded through also when it raises.
+The scripted agent answers request i by appending `reply` to the stream (and `caps` to the fragmentation schedule)
+when the request is written. -/
+
+def readLoopSt : Nat → Nat → Bytes → Conn → Except Err Bytes × Conn
+  | fuel, wanted, result, c =>
+    if result.length < wanted then
+      if result.length = 0 then (.error .lostAgent, c)
+      else
+        match fuel with
+        | 0 => (.error .fuel, c)
+        | fuel + 1 =>
+          let (extra, c') := recv c (wanted - result.length)
+          if extra.length = 0 then (.error .lostAgent, c')
+          else readLoopSt fuel wanted (result ++ extra) c'
+    else (.ok result, c)
+
+def readAllSt (wanted : Nat) (c : Conn) : Except Err Bytes × Conn :=
+  let (result, c') := recv c wanted
+  readLoopSt wanted wanted result c'
+
+/-- one `sign_ssh_data` on a live connection `c`: ((bytes written, result), connection afterwards) -/
+def signStep (k : Key) (data : Bytes) (algorithm : Option String) (reply : Bytes) (caps : List Nat) (c : Conn) :
+    (Bytes × Except Err Bytes) × Conn :=
+  let sent := frame (signRequest k data algorithm)
+  let c0 : Conn := { data := c.data ++ reply, caps := c.caps ++ caps }
+  match readAllSt 4 c0 with
+  | (.error e, c1) => ((sent, .error e), c1)
+  | (.ok hdr, c1) =>
+    match readAllSt (beVal hdr) c1 with
+    | (.error e, c2) => ((sent, .error e), c2)
+    | (.ok body, c2) =>
+      let (b, r) := Rd.getBytes { content := body, pos := 0 } 1
+      if (b.headD 0).toNat ≠ PV.Generated.C45.signResponseType then ((sent, .error .cannotSign), c2)
+      else ((sent, .ok (r.getString).1), c2)
+
+structure Req where
+  key : Key
+  data : Bytes
+  algorithm : Option String
+  reply : Bytes
+  caps : List Nat
+
+/-- a history of signing requests on one connection -/
+def signSession : Conn → List Req → List (Bytes × Except Err Bytes) × Conn
+  | c, [] => ([], c)
+  | c, r :: rs =>
+    let s := signStep r.key r.data r.algorithm r.reply r.caps c
+    let rest := signSession s.2 rs
+    (s.1 :: rest.1, rest.2)
+
 end PV.Agent
